@@ -62,7 +62,7 @@ type c17inst struct {
 }
 
 // c17Tol: relative tolerance per family (0 = exact); transcendental kernels need only agree to float32 precision
-var c17Tol = map[string]float64{"unary-math": 2e-6}
+var c17Tol = map[string]float64{"unary-math": 2e-6, "softmax": 2e-6}
 
 func clamp37(ks []int) []float64 {
 	o := make([]float64, len(ks))
@@ -701,7 +701,7 @@ func runC17(r *core.Run) {
 }
 
 func c17RunSet(r *core.Run, tag string) {
-	insts := append(c17Instances(), c17More()...)
+	insts := append(append(c17Instances(), c17More()...), c17Extra()...)
 	r.SetBound("instances", fmt.Sprintf("%d (family, operation, variant) instances x up to 18 element types (thorough: x 2 value sets)", len(insts)))
 	fam := map[string]int{}
 	for _, in := range insts {
